@@ -76,7 +76,9 @@ func Run(p *Pool, op Op, files map[int]*fit.File) (res string) {
 		f, err := fit.Decode(bytes.NewReader(p.Bytes[op.Idx]))
 		return "err=" + errText(err) + "\n" + digestFile(f)
 	case "decodeopts":
-		f, err := fit.Decode(bytes.NewReader(p.Bytes[op.Idx]), fit.WithUnknownFields(), fit.WithUnknownMessages())
+		// the option values are shared by every call (a package-level
+		// options slice is the natural way to use them)
+		f, err := fit.Decode(bytes.NewReader(p.Bytes[op.Idx]), sharedOpts...)
 		return "err=" + errText(err) + "\n" + digestFile(f)
 	case "chained":
 		fs, err := fit.DecodeChained(bytes.NewReader(p.Bytes[op.Idx]))
@@ -143,6 +145,8 @@ func Run(p *Pool, op Op, files map[int]*fit.File) (res string) {
 	}
 	return "unknown op"
 }
+
+var sharedOpts = []fit.DecodeOption{fit.WithUnknownFields(), fit.WithUnknownMessages()}
 
 type failingWriter struct {
 	buf   bytes.Buffer
@@ -228,7 +232,25 @@ func BuildPool(seed int) *Pool {
 		for i := 0; i < 12; i++ {
 			o := gen.DefaultFileOpts()
 			o.MaxMsgs = 3
+			o.LongSlots = false
+			// half of the Files carry values outside the round-trip domain
+			// (arrays and strings longer than the profile length)
+			o.OutDomain = i%2 == 1
+			if o.OutDomain {
+				o.FieldPct = 45
+			}
 			p.Specs = append(p.Specs, gen.GenFile(d, o))
+		}
+		// byte-array fields longer and shorter than their profile length in
+		// the same pool (anything that adapts shared tables to the data
+		// would show between these)
+		for _, n := range []int{1, 12, 3} {
+			elems := make([]fitmodel.Val, n)
+			for i := range elems {
+				elems[i] = fitmodel.U(uint64(i + 1))
+			}
+			p.Specs = append(p.Specs, &gen.FileSpec{Type: 4, Proto: 0x20, FileId: gen.MsgSpec{Fields: map[string]fitmodel.Val{}},
+				Slots: []gen.SlotSpec{{Name: "Hrs", Msgs: []gen.MsgSpec{{Global: 132, Fields: map[string]fitmodel.Val{"EventTimestamp12": fitmodel.Arr(elems)}}}}}})
 		}
 		return p
 	})
